@@ -17,6 +17,13 @@ package objectsets
 //                                       to delete; what exists of the ObjectSetPhase beforehand is scenario input.
 //
 // Slices are named by content ("s<ids>"), mirroring the content-hash naming of the encoder.
+//
+// Objects carry ALL fields of corev1alpha1.ObjectSetObject: .object, .collisionProtection (`cps`, by object id modulo
+// the list's length) and .conditionMappings (`cms`, likewise).  Every object the code under test hands on (loaded
+// phases, objects given to the per-phase worker, .spec.objects of a created ObjectSetPhase) is compared with the
+// pristine object of the scenario by deep equality of the whole ObjectSetObject and printed as its id only when equal
+// in every field, otherwise as `id~fp` (fp = collisionProtection number + 10 * conditionMappings table entry as
+// found, + 100 when the difference is elsewhere).
 
 import (
 	"context"
@@ -29,6 +36,7 @@ import (
 
 	"github.com/go-logr/logr"
 	corev1 "k8s.io/api/core/v1"
+	"k8s.io/apimachinery/pkg/api/equality"
 	apierrors "k8s.io/apimachinery/pkg/api/errors"
 	"k8s.io/apimachinery/pkg/api/meta"
 	metav1 "k8s.io/apimachinery/pkg/apis/meta/v1"
@@ -66,6 +74,31 @@ type c14LScn struct {
 	// per phase index (only looked at for phases with cls): what exists of the phase's ObjectSetPhase object:
 	// 0 nothing, 1 no status yet, 2 Available=True, 3 Available=False, 4 Available=True but not controlled by the ObjectSet
 	Rem []int `json:"rem"`
+	// the rest of every ObjectSetObject: object `id` has collisionProtection c14CPs[cps[id % len(cps)]] and
+	// conditionMappings c14CMs[cms[id % len(cms)]] (empty list: unset)
+	Cps []int `json:"cps"`
+	Cms []int `json:"cms"`
+}
+
+var c14CPs = []corev1alpha1.CollisionProtection{"", corev1alpha1.CollisionProtectionPrevent,
+	corev1alpha1.CollisionProtectionIfNoController, corev1alpha1.CollisionProtectionNone}
+
+var c14CMs = [][]corev1alpha1.ConditionMapping{
+	nil,
+	{{SourceType: "Available", DestinationType: "my-app.example.com/Available"}},
+	{{SourceType: "Available", DestinationType: "my-app.example.com/Available"},
+		{SourceType: "Degraded", DestinationType: "my-app.example.com/Degraded"}},
+	{{SourceType: "Progressing", DestinationType: "other.example.com/Progressing"}},
+}
+
+// c14Meta: the scenario's description of the objects (what the pristine object `id` looks like).
+type c14Meta struct{ cps, cms []int }
+
+func c14Cyc(l []int, i int) int {
+	if len(l) == 0 || i < 0 {
+		return 0
+	}
+	return l[i%len(l)]
 }
 
 const c14Class = "hosted-cluster"
@@ -83,25 +116,61 @@ func c14Key(ids []int) string {
 	return strings.Join(out, "_")
 }
 
-func c14Obj(id int) corev1alpha1.ObjectSetObject {
-	return corev1alpha1.ObjectSetObject{Object: unstructured.Unstructured{Object: map[string]any{
-		"apiVersion": "v1", "kind": "ConfigMap",
-		"metadata": map[string]any{"name": fmt.Sprintf("o%d", id)},
-	}}}
+// obj builds a fresh copy of the pristine object `id`.
+func (m c14Meta) obj(id int) corev1alpha1.ObjectSetObject {
+	return corev1alpha1.ObjectSetObject{
+		Object: unstructured.Unstructured{Object: map[string]any{
+			"apiVersion": "v1", "kind": "ConfigMap",
+			"metadata": map[string]any{"name": fmt.Sprintf("o%d", id)},
+			"data":     map[string]any{"k": fmt.Sprintf("v%d", id)},
+		}},
+		CollisionProtection: c14CPs[c14Cyc(m.cps, id)],
+		ConditionMappings:   append([]corev1alpha1.ConditionMapping(nil), c14CMs[c14Cyc(m.cms, id)]...),
+	}
 }
 
-func c14Objs(ids []int) []corev1alpha1.ObjectSetObject {
+func (m c14Meta) objs(ids []int) []corev1alpha1.ObjectSetObject {
 	var out []corev1alpha1.ObjectSetObject
 	for _, id := range ids {
-		out = append(out, c14Obj(id))
+		out = append(out, m.obj(id))
 	}
 	return out
 }
 
-func c14IDs(objs []corev1alpha1.ObjectSetObject) string {
+// tok prints one object the code under test handed on: its id if it is, in EVERY field of the ObjectSetObject, the
+// object the scenario describes for that id; otherwise id~fp with the fingerprint of what was found.
+func (m c14Meta) tok(o corev1alpha1.ObjectSetObject) string {
+	ids := strings.TrimPrefix(o.Object.GetName(), "o")
+	id, err := strconv.Atoi(ids)
+	if err != nil || id < 0 {
+		return ids
+	}
+	want := m.obj(id)
+	if equality.Semantic.DeepEqual(o, want) {
+		return ids
+	}
+	cp, cm := 9, 9
+	for i, v := range c14CPs {
+		if v == o.CollisionProtection {
+			cp = i
+		}
+	}
+	for i, v := range c14CMs {
+		if equality.Semantic.DeepEqual(v, o.ConditionMappings) {
+			cm = i
+		}
+	}
+	fp := cp + 10*cm
+	if !equality.Semantic.DeepEqual(o.Object, want.Object) || fp == c14Cyc(m.cps, id)+10*c14Cyc(m.cms, id) {
+		fp += 100
+	}
+	return fmt.Sprintf("%s~%d", ids, fp)
+}
+
+func (m c14Meta) ids(objs []corev1alpha1.ObjectSetObject) string {
 	out := make([]string, len(objs))
 	for i, o := range objs {
-		out[i] = strings.TrimPrefix(o.Object.GetName(), "o")
+		out[i] = m.tok(o)
 	}
 	return strings.Join(out, ",")
 }
@@ -110,6 +179,7 @@ func c14IDs(objs []corev1alpha1.ObjectSetObject) string {
 
 type c14Client struct {
 	client.Client
+	m         c14Meta
 	objectSet *corev1alpha1.ObjectSet
 	slices    map[string]*corev1alpha1.ObjectSlice
 	phases    map[string]*corev1alpha1.ObjectSetPhase // key ns/name
@@ -157,7 +227,7 @@ func (c *c14Client) Update(_ context.Context, obj client.Object, _ ...client.Upd
 		if !ok {
 			return apierrors.NewNotFound(schema.GroupResource{Resource: "objectslices"}, o.Name)
 		}
-		if c14IDs(old.Objects) != c14IDs(o.Objects) {
+		if !equality.Semantic.DeepEqual(old.Objects, o.Objects) {
 			c.other = append(c.other, "slice-content-changed:"+o.Name)
 		}
 		c.slices[k] = o.DeepCopy()
@@ -200,7 +270,7 @@ func (c *c14Client) Create(_ context.Context, obj client.Object, _ ...client.Cre
 		o.UID = types.UID("uid-" + o.Name)
 		o.Generation = 1
 		c.phases[k] = o.DeepCopy()
-		call := "Q:" + c.c14PhaseOf(o.Name) + ":" + c14IDs(o.Spec.Objects)
+		call := "Q:" + c.c14PhaseOf(o.Name) + ":" + c.m.ids(o.Spec.Objects)
 		if o.Labels[corev1alpha1.ObjectSetPhaseClassLabel] != c14Class || !metav1.IsControlledBy(o, c.objectSet) {
 			c.other = append(c.other, "objectsetphase-class-or-owner:"+o.Name)
 		}
@@ -260,6 +330,7 @@ func (c *c14Cache) Watch(context.Context, client.Object, runtime.Object) error  
 
 // c14PhaseRec replaces the innermost per-phase worker and records what it is handed.
 type c14PhaseRec struct {
+	m     c14Meta
 	calls *[]string
 	wait  string
 }
@@ -268,20 +339,30 @@ func (p *c14PhaseRec) ReconcilePhase(
 	_ context.Context, _ controllers.PhaseObjectOwner, phase corev1alpha1.ObjectSetTemplatePhase,
 	_ probing.Prober, _ []controllers.PreviousObjectSet,
 ) ([]client.Object, controllers.ProbingResult, error) {
-	*p.calls = append(*p.calls, "R:"+phase.Name+":"+c14IDs(phase.Objects))
+	*p.calls = append(*p.calls, "R:"+phase.Name+":"+p.m.ids(phase.Objects))
 	return nil, controllers.ProbingResult{}, nil
 }
 
 func (p *c14PhaseRec) TeardownPhase(
 	_ context.Context, _ controllers.PhaseObjectOwner, phase corev1alpha1.ObjectSetTemplatePhase,
 ) (bool, error) {
-	*p.calls = append(*p.calls, "T:"+phase.Name+":"+c14IDs(phase.Objects))
+	*p.calls = append(*p.calls, "T:"+phase.Name+":"+p.m.ids(phase.Objects))
 	return phase.Name != p.wait, nil
 }
 
 // ---------------------------------------------------------------- execution
 
 func c14Valid(s c14LScn) bool {
+	for _, v := range s.Cps {
+		if v < 0 || v >= len(c14CPs) {
+			return false
+		}
+	}
+	for _, v := range s.Cms {
+		if v < 0 || v >= len(c14CMs) {
+			return false
+		}
+	}
 	switch s.Mode {
 	case "load":
 		return true // the loader alone: `rem` is not looked at
@@ -348,7 +429,8 @@ func c14Exec(s c14LScn) string {
 		return "BAD-SCN"
 	}
 	scheme := c14Scheme
-	c := &c14Client{slices: map[string]*corev1alpha1.ObjectSlice{}}
+	m := c14Meta{cps: s.Cps, cms: s.Cms}
+	c := &c14Client{m: m, slices: map[string]*corev1alpha1.ObjectSlice{}}
 	os := &corev1alpha1.ObjectSet{
 		ObjectMeta: metav1.ObjectMeta{Name: "os", Namespace: c14NS, UID: types.UID("os-uid"), Generation: 1,
 			Finalizers: []string{constants.CachedFinalizer}},
@@ -363,7 +445,7 @@ func c14Exec(s c14LScn) string {
 		return false
 	}
 	for i, ph := range s.Phs {
-		p := corev1alpha1.ObjectSetTemplatePhase{Name: fmt.Sprintf("p%d", i), Objects: c14Objs(ph.Inl)}
+		p := corev1alpha1.ObjectSetTemplatePhase{Name: fmt.Sprintf("p%d", i), Objects: m.objs(ph.Inl)}
 		if ph.Cls {
 			p.Class = c14Class
 		}
@@ -375,7 +457,7 @@ func c14Exec(s c14LScn) string {
 			}
 			sl := &corev1alpha1.ObjectSlice{
 				ObjectMeta: metav1.ObjectMeta{Name: name, Namespace: c14NS, UID: types.UID("uid-" + name)},
-				Objects:    c14Objs(ch),
+				Objects:    m.objs(ch),
 			}
 			if in(s.Owned, ch) {
 				sl.OwnerReferences = []metav1.OwnerReference{{
@@ -403,7 +485,7 @@ func c14Exec(s c14LScn) string {
 		}
 		var phs []string
 		for _, p := range a.GetPhases() {
-			phs = append(phs, c14IDs(p.Objects))
+			phs = append(phs, m.ids(p.Objects))
 		}
 		line := fmt.Sprintf("L %s P=%s U=%s", out, strings.Join(phs, "/"), strings.Join(c.updates, ","))
 		if len(c.other) > 0 {
@@ -420,10 +502,10 @@ func c14Exec(s c14LScn) string {
 		for _, ch := range ph.Chunks {
 			ids = append(ids, ch...)
 		}
-		twin.Spec.Phases[i].Objects = c14Objs(ids)
+		twin.Spec.Phases[i].Objects = m.objs(ids)
 		twin.Spec.Phases[i].Slices = nil
 	}
-	c2 := &c14Client{slices: map[string]*corev1alpha1.ObjectSlice{}}
+	c2 := &c14Client{m: m, slices: map[string]*corev1alpha1.ObjectSlice{}}
 	inline, other2 := c14Ctl(s, twin, c2)
 	line := "C " + sliced + " ~ " + strings.Replace(inline, " U=", "", 1)
 	other = append(other, other2...)
@@ -454,7 +536,7 @@ func c14Ctl(s c14LScn, os *corev1alpha1.ObjectSet, c *c14Client) (string, []stri
 	c14SeedPhases(s, os, c)
 	var calls []string
 	c.calls = &calls
-	rec := &c14PhaseRec{wait: "-", calls: &calls}
+	rec := &c14PhaseRec{m: c.m, wait: "-", calls: &calls}
 	if s.Wait >= 0 {
 		rec.wait = fmt.Sprintf("p%d", s.Wait)
 	}
@@ -544,6 +626,23 @@ func c14Tags(s c14LScn, out string) []string {
 	default:
 		tags = append(tags, "phases=mixed")
 	}
+	hasCP, hasCM := false, false
+	for _, p := range s.Phs {
+		ids := append([]int(nil), p.Inl...)
+		for _, ch := range p.Chunks {
+			ids = append(ids, ch...)
+		}
+		for _, id := range ids {
+			hasCP = hasCP || c14Cyc(s.Cps, id) != 0
+			hasCM = hasCM || c14Cyc(s.Cms, id) != 0
+		}
+	}
+	if hasCP {
+		tags = append(tags, "obj:collisionProtection")
+	}
+	if hasCM {
+		tags = append(tags, "obj:conditionMappings")
+	}
 	if nclsSliced > 0 {
 		tags = append(tags, "delegated+sliced")
 	}
@@ -581,6 +680,12 @@ func TestVerifC14Load(t *testing.T) {
 		}
 		if s.Rem == nil {
 			s.Rem = []int{}
+		}
+		if s.Cps == nil {
+			s.Cps = []int{}
+		}
+		if s.Cms == nil {
+			s.Cms = []int{}
 		}
 		for i := range s.Phs {
 			if s.Phs[i].Inl == nil {
@@ -630,6 +735,13 @@ func TestVerifC14Load(t *testing.T) {
 	rng := r.Rng
 	modes := []string{"load", "active", "archived", "deleted"}
 
+	// the objects of the exhaustive part: collisionProtection by id mod 4, conditionMappings by id mod 3 (ids 0..3 and
+	// 10..13: every value of each, in different combinations, incl. the plain object)
+	gen := func(s c14LScn) {
+		s.Cps = []int{1, 0, 2, 3}
+		s.Cms = []int{2, 0, 1}
+		run(s)
+	}
 	// ---- exhaustive: up to 2 phases; each phase: inline part in {[], [a]} and 0..2 slices drawn from a few
 	// contents (incl. the empty slice and the same slice twice); every slice present/owned/missing.
 	contents := [][]int{{}, {1}, {2, 3}}
@@ -682,7 +794,7 @@ func TestVerifC14Load(t *testing.T) {
 						}
 					}
 				}
-				run(c14LScn{Mode: mode, Phs: phs, Wait: -1})
+				gen(c14LScn{Mode: mode, Phs: phs, Wait: -1})
 				count++
 				// every non-empty set of phases delegated (class set).  The loader alone does not care what
 				// exists of the ObjectSetPhase; the controller is run for every state of every delegated
@@ -699,10 +811,10 @@ func TestVerifC14Load(t *testing.T) {
 						}
 					}
 					if mode == "load" {
-						run(c14LScn{Mode: mode, Phs: dphs, Wait: -1})
+						gen(c14LScn{Mode: mode, Phs: dphs, Wait: -1})
 						count++
 						for _, d := range distinct {
-							run(c14LScn{Mode: mode, Phs: dphs, Missing: [][]int{d}, Wait: -1})
+							gen(c14LScn{Mode: mode, Phs: dphs, Missing: [][]int{d}, Wait: -1})
 							count++
 						}
 						continue
@@ -724,28 +836,28 @@ func TestVerifC14Load(t *testing.T) {
 						}
 					}
 					for _, rem := range rems {
-						run(c14LScn{Mode: mode, Phs: dphs, Rem: rem, Wait: -1})
+						gen(c14LScn{Mode: mode, Phs: dphs, Rem: rem, Wait: -1})
 						count++
 					}
 					if mode != "active" {
 						// a local phase whose teardown is pending, next to delegated ones
 						for w := range dphs {
 							if !dphs[w].Cls {
-								run(c14LScn{Mode: mode, Phs: dphs, Rem: rems[len(rems)-1], Wait: w})
-								run(c14LScn{Mode: mode, Phs: dphs, Rem: rems[0], Wait: w})
+								gen(c14LScn{Mode: mode, Phs: dphs, Rem: rems[len(rems)-1], Wait: w})
+								gen(c14LScn{Mode: mode, Phs: dphs, Rem: rems[0], Wait: w})
 								count += 2
 							}
 						}
 					}
 				}
 				for _, d := range distinct {
-					run(c14LScn{Mode: mode, Phs: phs, Missing: [][]int{d}, Wait: -1})
-					run(c14LScn{Mode: mode, Phs: phs, Owned: [][]int{d}, Wait: -1})
+					gen(c14LScn{Mode: mode, Phs: phs, Missing: [][]int{d}, Wait: -1})
+					gen(c14LScn{Mode: mode, Phs: phs, Owned: [][]int{d}, Wait: -1})
 					count += 2
 				}
 				if mode == "archived" || mode == "deleted" {
 					for w := range phs {
-						run(c14LScn{Mode: mode, Phs: phs, Wait: w})
+						gen(c14LScn{Mode: mode, Phs: phs, Wait: w})
 						count++
 					}
 				}
@@ -800,8 +912,19 @@ func TestVerifC14Load(t *testing.T) {
 		if np > 0 && rng.Intn(5) == 0 {
 			s.Wait = rng.Intn(np)
 		}
+		// collisionProtection / conditionMappings drawn independently (one scenario in four: plain objects)
+		if rng.Intn(4) > 0 {
+			for k := 1 + rng.Intn(5); k > 0; k-- {
+				s.Cps = append(s.Cps, rng.Intn(len(c14CPs)))
+			}
+			for k := 1 + rng.Intn(4); k > 0; k-- {
+				s.Cms = append(s.Cms, rng.Intn(len(c14CMs)))
+			}
+		}
 		run(s)
 	}
+	run(c14LScn{Mode: "load", Phs: []c14LPhase{{Inl: []int{1}}}, Cps: []int{5}, Wait: -1})
+	run(c14LScn{Mode: "active", Phs: []c14LPhase{{Inl: []int{1}}}, Cms: []int{0, 4}, Wait: -1})
 	run(c14LScn{Mode: "frob", Wait: -1})
 	run(c14LScn{Mode: "active", Phs: []c14LPhase{{Inl: []int{1}, Cls: true}}, Rem: []int{7}, Wait: -1})
 }
